@@ -99,8 +99,8 @@ def pMesh : P PMesh := do
   pure { topo := topo, indices := idx, attrs := attrs }
 
 def pSampler : P Sampler := do
-  let mag ← pNat; let min ← pNat; let ws ← pNat; let wt ← pNat; let name ← pStr
-  pure { mag := mag, min := min, wrapS := ws, wrapT := wt, name := name }
+  let mag ← pNat; let min ← pNat; let ws ← pNat; let wt ← pNat; let name ← pStr; let tag ← pNat
+  pure { mag := mag, min := min, wrapS := ws, wrapT := wt, name := name, tag := tag }
 
 def pTex : P PTexture := do
   let uri ← pStr
@@ -378,7 +378,7 @@ def docToks (d : Doc) : List String :=
   ++ ["texs", toString d.textures.length] ++ d.textures.flatMap (fun t => [optNat t.sampler, optNat t.source])
   ++ ["images", toString d.images.length] ++ d.images.map sq
   ++ ["samplers", toString d.samplers.length]
-  ++ d.samplers.flatMap (fun s => [toString s.mag, toString s.min, toString s.wrapS, toString s.wrapT, sq s.name])
+  ++ d.samplers.flatMap (fun s => [toString s.mag, toString s.min, toString s.wrapS, toString s.wrapT, sq s.name, toString s.tag])
   ++ ["lights", toString d.lights] ++ d.lightData.flatMap (fun l => l.map h64)
   ++ ["extUsed", toString d.extUsed.length] ++ (sortStr d.extUsed).map sq
   ++ ["extReq", toString d.extRequired.length] ++ (sortStr d.extRequired).map sq
